@@ -18,6 +18,10 @@ Decides, partly by interpreting small pure functions with the checker's evaluato
  * ObjectAssertion equality, interpreted, conflates 1 and True, so no state of the verification observer may be
    keyed by an assertion object (C21.own-rendering).
 Whether the verification run itself observes every violation (flakiness of the SUT) is not decided.
+Further clauses (added later): C21.unchecked (must-pass / guard dominance): a mutant that was not executed
+returns the skip token and is counted and collected only under `is not None`; C21.own-rendering: no
+verification-observer state is keyed by assertion objects, whose equality conflates 1 and True; removing non-
+holding assertions that raises is a finding.
 """
 
 from __future__ import annotations
